@@ -94,11 +94,6 @@ func c03FindLegacyCollider(db *legacyindex.DB, stored [][]byte, gen func(i uint6
 	return nil, maxTries
 }
 
-func c03GenSig(i uint64) []byte {
-	h := sha512.Sum512([]byte(fmt.Sprintf("c03-absent-sig-%d", i)))
-	return h[:]
-}
-
 func c03GenCid(i uint64) []byte {
 	var b [8]byte
 	binary.LittleEndian.PutUint64(b[:], i)
